@@ -610,7 +610,7 @@ inductive CrStep (L : Nat) (r' r : Token × Z) : Prop
 theorem CrStep.of_nl {z : Z} {r' r : Token × Z} (h : OL z) (hr : r' = crxR r) (hn : NL z r) :
     CrStep z.line r' r := by
   obtain ⟨pre, _, _, _, hline⟩ := hn.adv
-  refine CrStep.inside hr (h.of_advNL hn.adv) (by rw [hn.pos]; rfl) (by rw [hn.stop]; exact hline) hline
+  refine CrStep.inside hr (h.of_advNL hn.adv) (by rw [hn.pos]; rfl) (by rw [hn.stop.line, hn.pos]; rfl) hline
 
 theorem scanInLine_crstep (C : Classes) {z : Z} (h : OL z) :
     CrStep z.line (scanInLine C z.crx) (scanInLine C z) := by
